@@ -9,8 +9,12 @@
    text, and the values come back (ranges by expansion).
    Proved part: [good_val] - int32, int64, chars, true/false/nil/inf, strings
    and quoted symbols with every escape and every string line break; every
-   line length, precision, column; compression off or on (no run is compressed
-   in the model yet: PrintModel.convert_to_range is the identity, see notes). *)
+   line length, precision, column.  The model covers range conversion, arrays
+   and messages (Pretty/PrintModel.v, ScanModel.v); the round trip of whole
+   lists is proved with compression off (C10_roundtrip_partial,
+   C10_message_partial), the range conversion itself and the reading of
+   repetitions separately (C10_range_expand, C10_repetition_reads_partial);
+   see notes/C10.md for what is still open. *)
 From Coq Require Import List ZArith.
 From RtoscV Require Import Pretty.Tok Pretty.FloatFmt Pretty.PrintModel Pretty.ScanModel
   Pretty.PrettyProofs Pretty.RangeProofs Pretty.RunProofs Pretty.PrettyRegress.
